@@ -1094,6 +1094,10 @@ impl State {
                 let idx = *i;
                 let val = self.pop_data()?;
                 let frame = self.top_frame()?;
+                while frame.locals.len() < idx {
+                    // an earlier `local` on a branch not taken: keep later slots at their index
+                    frame.locals.push_back_mut(Cell::Nil);
+                }
                 if idx < frame.locals.len() {
                     frame.locals[idx] = val;
                 } else {
